@@ -22,6 +22,12 @@ def leaf_fields(facts, adt_name, prefix=''):
     return out
 
 
+def _is_put_int(c):
+    """bytes::BufMut::put_u32 / put_u64 / ... (big-endian), put_*_le / put_*_ne: fixed-width integer writers"""
+    import re
+    return bool(re.match(r'put_[ui](8|16|32|64|128)(_le|_ne)?$', last_seg(strip_generics(c['path']))))
+
+
 def checksum_total(ctx, rule='C12.checksum-total'):
     res = []
     F = ctx.facts
@@ -44,7 +50,7 @@ def checksum_total(ctx, rule='C12.checksum-total'):
             if t['k'] != 'call':
                 continue
             c = callee_of(t)
-            if not c or last_seg(strip_generics(c['path'])) not in writer_names:
+            if not c or not (last_seg(strip_generics(c['path'])) in writer_names or (feeder and _is_put_int(c))):
                 continue
             nwrites += 1
             for a in t['args'][1:]:
@@ -86,6 +92,22 @@ def checksum_total(ctx, rule='C12.checksum-total'):
     return res
 
 
+def _only_counts(e, depth=0):
+    """is the (fully resolved) expression built from constants and element counts (`len()`, `capacity()`, `remaining()`) only?"""
+    if depth > 20 or not isinstance(e, tuple):
+        return False
+    k = e[0]
+    if k == 'const':
+        return True
+    if k == 'call':
+        return last_seg(strip_generics(e[1])) in ('len', 'capacity', 'remaining', 'remaining_mut', 'is_empty', 'size_of')
+    if k in ('bin',):
+        return _only_counts(e[2], depth + 1) and _only_counts(e[3], depth + 1)
+    if k == 'un':
+        return _only_counts(e[2], depth + 1)
+    return False
+
+
 def _is_panic_call(t):
     c = callee_of(t)
     if not c:
@@ -124,6 +146,21 @@ def _valid_edges(ctx, fn):
 def _behind_edge(fn, b, edge):
     """every path entry -> b uses edge"""
     return b not in fn.reach_from([0], avoid_edges={edge})
+
+
+def _validated_at(fn, b, vedges):
+    """handles whose validity test has succeeded on EVERY path to block b.  A compiled `match (valid1, valid2)` tests the same bit in several
+    switch blocks (one per branch of the decision tree), so the success edges are grouped per handle: b is behind the group when it is unreachable
+    once all of them are cut."""
+    groups = {}
+    for (vb, vt, hs) in vedges:
+        for h in hs:
+            groups.setdefault(h, set()).add((vb, vt))
+    out = set()
+    for h, edges in groups.items():
+        if b not in fn.reach_from([0], avoid_edges=edges):
+            out.add(h)
+    return out
 
 
 def validate_before_trust(ctx, rule='C12.validate-before-trust'):
@@ -170,12 +207,11 @@ def validate_before_trust(ctx, rule='C12.validate-before-trust'):
                 fields = {(last_seg(a[1]), a[2]) for a in atoms if a[0] == 'field' and a[1] and last_seg(a[1]) in ONDISK}
                 if not fields:
                     continue
+                if _only_counts(du.sym(op)):
+                    continue      # `buf.len() == 68`: the length of a buffer the fields were written into does not depend on their values
                 tainted_any = True
                 handles = {du.root_of(a[3]) for a in atoms if a[0] == 'load' and a[1] and last_seg(a[1]) in ONDISK}
-                validated = set()
-                for (vb, vt, hs) in vedges:
-                    if _behind_edge(fn, cb, (vb, vt)):
-                        validated |= hs
+                validated = _validated_at(fn, cb, vedges)
                 if not handles or not handles <= validated:
                     offending.append((cb, fields))
             if not tainted_any:
@@ -224,6 +260,7 @@ def select_total(ctx, rule='C12.select-total'):
             handles.add(du.root_of(l))
     returned = set()
     unconditional = set()
+    id_tests = None
     # selections: `Some(handle)` aggregates
     nsel = 0
     for bb in sorted(fn.reachable_blocks()):
@@ -240,20 +277,19 @@ def select_total(ctx, rule='C12.select-total'):
             returned |= hs_sel
             # is this selection unconditional with respect to the transaction ids?  (needed below: a header that is the only valid one must be selected
             # whatever the ids say)
-            by_id = False
-            for (a, sx) in fn.control_deps_transitive(bb):
-                at = fn.term(a)
-                if at['k'] != 'switch':
-                    continue
-                _, da = du.slice_operand(at['discr'])
-                if (has_field(da, 'Meta', 'tx_id') or has_field(da, 'OldMeta', 'tx_id')) and any(x[0] == 'bin' and x[1] in ('Gt', 'Lt', 'Ge', 'Le') for x in da):
-                    by_id = True
-            if not by_id:
+            if id_tests is None:
+                id_tests = set()
+                for a in fn.reachable_blocks():
+                    at = fn.term(a)
+                    if at['k'] != 'switch':
+                        continue
+                    _, da = du.slice_operand(at['discr'])
+                    if (has_field(da, 'Meta', 'tx_id') or has_field(da, 'OldMeta', 'tx_id')) and any(x[0] == 'bin' and x[1] in ('Gt', 'Lt', 'Ge', 'Le') for x in da):
+                        id_tests.add(a)
+            # reachable on some path that performs no transaction-id comparison (an or-pattern arm can be entered both ways)
+            if bb in fn.reach_from([0], avoid=id_tests):
                 unconditional |= hs_sel
-            validated = set()
-            for (vb, vt, hs) in vedges:
-                if _behind_edge(fn, bb, (vb, vt)):
-                    validated |= hs
+            validated = _validated_at(fn, bb, vedges)
             if hs_sel <= validated:
                 res.append(ok(rule, 'header selected at %s only behind its own successful validity test' % fn.loc(bb, si), sites=1))
             else:
@@ -289,6 +325,43 @@ def select_total(ctx, rule='C12.select-total'):
         res.append(bad(rule, '%s | tx ids of the two headers not compared' % fn.qual,
                        'header selection does not compare the transaction ids of the two headers for both formats (found %d comparison(s)): '
                        'with both headers valid the older one could be chosen' % cmp_ok, where='%s:%d' % (fn.file, fn.line)))
+    return res
+
+
+def kind_exact(ctx, rule='C12.kind-exact'):
+    """the checksum does not cover the page-kind byte, so the kind test in header selection is the only thing that notices damage to it: it must compare
+    the whole byte for equality with the header kind; a mask / range test lets damaged values through"""
+    import c16
+    res = []
+    try:
+        (hdr,) = ctx.need('DBInner::meta')
+    except AnchorError as e:
+        return [unresolved(rule, str(e))]
+    X = ctx.x(hdr)
+    du = ctx.du(X)
+    want = ctx.facts.const_val('Page::TYPE_META')
+    n = 0
+    for bb in sorted(X.reachable_blocks()):
+        for si, st in enumerate(X.blocks[bb]['stmts']):
+            if st['k'] != 'assign' or st['rv']['k'] != 'bin':
+                continue
+            e = du.sym_local(st['p']['l']) if False else ('bin', st['rv']['op'], du.sym(st['rv']['a']), du.sym(st['rv']['b']))
+            kind_ops = [x for x in (e[2], e[3]) if c16._tree_has(x, lambda y: y[0] == 'field' and y[2] and y[2][-1] == 'page_type')]
+            if not kind_ops:
+                continue
+            n += 1
+            op = e[1]
+            direct = [x for x in (e[2], e[3]) if x[0] == 'field' and x[2] and x[2][-1] == 'page_type']
+            consts = [x[1] for x in (e[2], e[3]) if x[0] == 'const']
+            if op in ('Eq', 'Ne') and direct and (want is None or consts == [want] or not consts):
+                res.append(ok(rule, 'page kind compared for equality at %s' % X.loc(bb, si), sites=1))
+            else:
+                res.append(bad(rule, '%s | page kind not tested by exact comparison (%s)' % (hdr.qual, op),
+                               'header selection tests the page-kind byte at %s with `%s` (%s) instead of comparing the whole byte with the header kind: a damaged kind byte '
+                               'that keeps the tested bits is accepted, and the damaged header is trusted' % (X.loc(bb, si), op, c16._fmt(e)[:100]), where=X.loc(bb, si)))
+    f = floor(rule, 'tests of the page-kind byte in header selection', n, 2)
+    if f:
+        res.append(f)
     return res
 
 
@@ -351,11 +424,14 @@ def run(ctx, tier):
     results += validate_before_trust(ctx)
     results += select_total(ctx)
     results += seal_last(ctx)
+    results += kind_exact(ctx)
     results += c02.alternate_rule(ctx, rule='C12.alternate')
     results += c02.cow_free_set(ctx, rule='C12.fallback-kept')
     results += c02.pending_key(ctx, rule='C12.fallback-kept.key')
     import c06
     results += c06.open_existing(ctx, rule='C12.open-existing')
+    import c03
+    results += c03.release_sites(ctx, rule='C12.release-site')
     return dict(
         results=results, stats=dict(ctx.stats),
         explanation=(
